@@ -797,12 +797,12 @@ def check(ctx, res):
     if ctx.replay:
         replay(ctx, res)
         return
-    n = ctx.n(1500, 100000)
+    n = ctx.n(1500, 30000)        # thorough: about 25 minutes on this machine (100000 took 79 min)
     # thorough runs are split in rounds to bound memory
     rounds = 1 if n <= 3000 else (n + 2999) // 3000
     per = n // rounds
     for r in range(rounds):
-        run_generated(ctx, res, per, ctx.n(900, 12000) if r == 0 else 0, 'r%d' % r, with_corpus=(r == 0))
+        run_generated(ctx, res, per, ctx.n(900, 6000) if r == 0 else 0, 'r%d' % r, with_corpus=(r == 0))
         if res['violations']:
             break
     probe_time_in_time(res, ctx.rng)
